@@ -297,6 +297,15 @@ class C01Driver(wl.Driver):
                         expected=sorted(map(str, want.elements())),
                         observed=sorted(map(str, got.elements())))
                 return
+            # the answer is the caller's own list: a client that empties or
+            # reorders it must not change what the world answers next time
+            if isinstance(got_list, list) and got_list:
+                if at % 2:
+                    del got_list[:]
+                else:
+                    got_list.reverse()
+                    got_list.pop()
+                res.stats['returned_lists_mutated_by_client'] += 1
         ids = list(self.mentioned) + [('ghost', 0), ('ghost', 1)]
         for e in ids:
             row = m.rows.get(e, {})
@@ -350,6 +359,37 @@ class C01Driver(wl.Driver):
                 res.div(at, 'query-raised', f'a query on entity {e!r} raised',
                         expected='no exception', observed=repr(ex))
                 return
+        # a query type that some component classes are only REGISTERED
+        # with (abc virtual subclasses): whether those match is left open,
+        # but the queries must agree with each other
+        virt = getattr(self, 'virtual', None)
+        if virt is None:
+            import abc
+            virt = self.virtual = abc.ABCMeta('Virtual', (), {})
+            for k, cls in enumerate(self.classes):
+                if k % 2 == 0:
+                    try:
+                        virt.register(cls)
+                    except TypeError:
+                        pass
+        try:
+            listed = {repr(e) for e, _ in w.get(virt)}
+            for e in ids:
+                sentinel = object()
+                answers = (w.has_component(e, virt),
+                           w.get_component(e, virt, sentinel) is not sentinel,
+                           repr(e) in listed)
+                n += 1
+                if len(set(answers)) != 1:
+                    res.div(at, 'virtual-subclass-queries-disagree',
+                            f'has_component / get_component / get for entity '
+                            f'{e!r} and a type its components are virtual '
+                            'subclasses of', 'one answer', list(answers))
+                    return
+        except Exception as ex:
+            res.div(at, 'query-raised', 'a query by an abstract base class '
+                    'raised', expected='no exception', observed=repr(ex))
+            return
         try:
             ents = list(w.entities)
         except Exception as ex:
